@@ -24,6 +24,7 @@ Apply(i, r) ==
   CASE i.op = "upgrade" -> Upgrade(i.offers, i.origin)
     [] i.op = "hello"   -> Hello
     [] i.op = "pub"     -> Pub
+    [] i.op = "sget"    -> SGet /\ ~r.leak
     [] i.op = "rshs"    -> RsHandshake(i.magic, i.lenn, i.sern, i.rsv) /\ wobs'.reply = r.hsreply /\ wobs'.closed = r.closed
     [] i.op = "rsbig"   -> RsTooBig
     [] i.op = "cconnect" -> ClientConnect(r.kind, i.scheme, i.ser)
